@@ -165,7 +165,19 @@ def run(ctx, rep):
                     ag.set_local_optimization_params([float(v) for v in vals])
                     ops.append("p " + " ".join(map(str, vals)))
                 elif r < 0.9:
+                    # a read on the object itself (any entry point: whatever a reader caches must not survive the next write)
+                    name, fn = rng.choice(READERS)
+                    with warnings.catch_warnings():
+                        warnings.simplefilter("ignore")
+                        with np.errstate(all="ignore"):
+                            try:
+                                fn(ag, x)
+                            except (MemoryError, OverflowError, RecursionError, Timeout):
+                                raise
+                            except Exception:
+                                pass
                     ag.get_complexity()
+                    rep.count("read_on_object", name)
                     ops.append("o")
                     seen_obs = True
                 elif r < 0.96:
